@@ -290,106 +290,172 @@ Definition hand_modelled : list (string * string) := [
 ].
 Definition is_hand_modelled (name : string) : bool := existsb (fun p => fst p =? name) hand_modelled.
 
-Definition hand_step (name : string) (st : state) (actuals : list arg) : outcome * state :=
+(* CWRAPPER_BEGIN self->m.push_back(basic_rcp(value)); CWRAPPER_END *)
+Definition h_vec_push_back (st : state) (actuals : list arg) : outcome * state :=
   match actuals with
-  (* CWRAPPER_BEGIN self->m.push_back(basic_rcp(value)); CWRAPPER_END *)
   | [AV i; AB j] =>
-      if name =? "vecbasic_push_back" then
-        match nth_error (s_v st) i, nth_error (s_b st) j with
-        | Some l, Some v => (RetCode SYMENGINE_NO_EXCEPTION, set_v st i (l ++ [v]))
-        | _, _ => (Unmodelled, st)
-        end
-      else (Unmodelled, st)
-  (* vecbasic_get: SYMENGINE_ASSERT(n < size) [compiled out]; basic_rcp(result) = self->m[n];
-     vecbasic_set: ... self->m[n] = basic_rcp(s); *)
+      match nth_error (s_v st) i, nth_error (s_b st) j with
+      | Some l, Some v => (RetCode SYMENGINE_NO_EXCEPTION, set_v st i (l ++ [v]))
+      | _, _ => (Unmodelled, st)
+      end
+  | _ => (Unmodelled, st)
+  end.
+(* CWRAPPER_BEGIN SYMENGINE_ASSERT(n < self->m.size()) [compiled out]; basic_rcp(result) = self->m[n]; CWRAPPER_END *)
+Definition h_vec_get (st : state) (actuals : list arg) : outcome * state :=
+  match actuals with
+  | [AV i; AZ n; AB j] =>
+      match nth_error (s_v st) i with
+      | Some l =>
+          if (n <? 0)%Z then (Unmodelled, st)
+          else if negb (j <? length (s_b st))%nat then (Unmodelled, st)
+          else match nth_error l (Z.to_nat n) with
+               | Some x => (RetCode SYMENGINE_NO_EXCEPTION, set_b st j x)
+               | None => (MemErr (Z.to_N n) (nlen l), st)
+               end
+      | None => (Unmodelled, st)
+      end
+  | _ => (Unmodelled, st)
+  end.
+(* CWRAPPER_BEGIN SYMENGINE_ASSERT(n < self->m.size()) [compiled out]; self->m[n] = basic_rcp(s); CWRAPPER_END *)
+Definition h_vec_set (st : state) (actuals : list arg) : outcome * state :=
+  match actuals with
   | [AV i; AZ n; AB j] =>
       match nth_error (s_v st) i, nth_error (s_b st) j with
       | Some l, Some v =>
           if (n <? 0)%Z then (Unmodelled, st)
-          else if name =? "vecbasic_get" then
-            match nth_error l (Z.to_nat n) with
-            | Some x => (RetCode SYMENGINE_NO_EXCEPTION, set_b st j x)
-            | None => (MemErr (Z.to_N n) (nlen l), st)
-            end
-          else if name =? "vecbasic_set" then
-            if (Z.to_nat n <? length l)%nat then (RetCode SYMENGINE_NO_EXCEPTION, set_v st i (upd_nth l (Z.to_nat n) v))
-            else (MemErr (Z.to_N n) (nlen l), st)
-          else (Unmodelled, st)
+          else if (Z.to_nat n <? length l)%nat
+               then (RetCode SYMENGINE_NO_EXCEPTION, set_v st i (upd_nth l (Z.to_nat n) v))
+               else (MemErr (Z.to_N n) (nlen l), st)
       | _, _ => (Unmodelled, st)
       end
-  (* vecbasic_erase: self->m.erase(self->m.begin() + n); *)
-  | [AV i; AZ n] =>
-      if name =? "vecbasic_erase" then
-        match nth_error (s_v st) i with
-        | Some l =>
-            if (n <? 0)%Z then (Unmodelled, st)
-            else if (Z.to_nat n <? length l)%nat then (RetCode SYMENGINE_NO_EXCEPTION, set_v st i (remove_nth l (Z.to_nat n)))
-            else (MemErr (Z.to_N n) (nlen l), st)
-        | None => (Unmodelled, st)
-        end
-      else (Unmodelled, st)
-  | [AV i] =>
-      if name =? "vecbasic_size" then
-        match nth_error (s_v st) i with
-        | Some l => (RetInt (Z.of_nat (length l)), st)
-        | None => (Unmodelled, st)
-        end
-      else (Unmodelled, st)
-  (* setbasic_insert: return (self->m.insert(basic_rcp(value))).second ? 1 : 0;  find / erase alike *)
-  | [AS i; AB j] =>
-      match nth_error (s_s st) i, nth_error (s_b st) j with
-      | Some s, Some v =>
-          if name =? "setbasic_insert" then
-            (RetInt (if fst (set_insert vlt v s) then 1 else 0), set_s st i (snd (set_insert vlt v s)))
-          else if name =? "setbasic_find" then (RetInt (if set_find vlt v s then 1 else 0), st)
-          else if name =? "setbasic_erase" then
-            (RetInt (if fst (set_erase vlt v s) then 1 else 0), set_s st i (snd (set_erase vlt v s)))
-          else (Unmodelled, st)
-      | _, _ => (Unmodelled, st)
-      end
-  (* setbasic_get: basic_rcp(result) = *std::next((self->m).begin(), n);   -- no range check at all *)
-  | [AS i; AZ n; AB j] =>
-      if name =? "setbasic_get" then
-        match nth_error (s_s st) i with
-        | Some s =>
-            if (n <? 0)%Z then (MemErr 0 (nlen s), st)
-            else match nth_error s (Z.to_nat n) with
-                 | Some x => if (j <? length (s_b st))%nat then (RetVoid, set_b st j x) else (Unmodelled, st)
-                 | None => (MemErr (Z.to_N n) (nlen s), st)
-                 end
-        | None => (Unmodelled, st)
-        end
-      else (Unmodelled, st)
-  | [AS i] =>
-      if name =? "setbasic_size" then
-        match nth_error (s_s st) i with
-        | Some s => (RetInt (Z.of_nat (length s)), st)
-        | None => (Unmodelled, st)
-        end
-      else (Unmodelled, st)
-  (* mapbasicbasic_insert: (self->m)[basic_rcp(key)] = basic_rcp(mapped);
-     mapbasicbasic_get: find; if found { basic_rcp(mapped) = it->second; return 1; } return 0; *)
-  | [AM i; AB j; AB k] =>
-      match nth_error (s_m st) i, nth_error (s_b st) j, nth_error (s_b st) k with
-      | Some m, Some key, Some v =>
-          if name =? "mapbasicbasic_insert" then (RetVoid, set_m st i (map_set vlt key v m))
-          else if name =? "mapbasicbasic_get" then
-            match map_get vlt key m with
-            | Some x => (RetInt 1, set_b st k x)
-            | None => (RetInt 0, st)
-            end
-          else (Unmodelled, st)
-      | _, _, _ => (Unmodelled, st)
-      end
-  | [AM i] =>
-      if name =? "mapbasicbasic_size" then
-        match nth_error (s_m st) i with
-        | Some m => (RetInt (Z.of_nat (length m)), st)
-        | None => (Unmodelled, st)
-        end
-      else (Unmodelled, st)
   | _ => (Unmodelled, st)
   end.
+(* CWRAPPER_BEGIN SYMENGINE_ASSERT(n < self->m.size()) [compiled out]; self->m.erase(self->m.begin() + n); CWRAPPER_END *)
+Definition h_vec_erase (st : state) (actuals : list arg) : outcome * state :=
+  match actuals with
+  | [AV i; AZ n] =>
+      match nth_error (s_v st) i with
+      | Some l =>
+          if (n <? 0)%Z then (Unmodelled, st)
+          else if (Z.to_nat n <? length l)%nat
+               then (RetCode SYMENGINE_NO_EXCEPTION, set_v st i (remove_nth l (Z.to_nat n)))
+               else (MemErr (Z.to_N n) (nlen l), st)
+      | None => (Unmodelled, st)
+      end
+  | _ => (Unmodelled, st)
+  end.
+(* return self->m.size(); *)
+Definition h_vec_size (st : state) (actuals : list arg) : outcome * state :=
+  match actuals with
+  | [AV i] => match nth_error (s_v st) i with
+              | Some l => (RetInt (Z.of_nat (length l)), st)
+              | None => (Unmodelled, st)
+              end
+  | _ => (Unmodelled, st)
+  end.
+(* return (self->m.insert(basic_rcp(value))).second ? 1 : 0; *)
+Definition h_set_insert (st : state) (actuals : list arg) : outcome * state :=
+  match actuals with
+  | [AS i; AB j] =>
+      match nth_error (s_s st) i, nth_error (s_b st) j with
+      | Some s, Some v => (RetInt (if fst (set_insert vlt v s) then 1 else 0), set_s st i (snd (set_insert vlt v s)))
+      | _, _ => (Unmodelled, st)
+      end
+  | _ => (Unmodelled, st)
+  end.
+(* basic_rcp(result) = *std::next((self->m).begin(), n);     -- no range check at all *)
+Definition h_set_get (st : state) (actuals : list arg) : outcome * state :=
+  match actuals with
+  | [AS i; AZ n; AB j] =>
+      match nth_error (s_s st) i with
+      | Some s =>
+          if negb (j <? length (s_b st))%nat then (Unmodelled, st)
+          else if (n <? 0)%Z then (MemErr 0 (nlen s), st)
+          else match nth_error s (Z.to_nat n) with
+               | Some x => (RetVoid, set_b st j x)
+               | None => (MemErr (Z.to_N n) (nlen s), st)
+               end
+      | None => (Unmodelled, st)
+      end
+  | _ => (Unmodelled, st)
+  end.
+(* return self->m.find(basic_rcp(value)) != (self->m).end() ? 1 : 0; *)
+Definition h_set_find (st : state) (actuals : list arg) : outcome * state :=
+  match actuals with
+  | [AS i; AB j] =>
+      match nth_error (s_s st) i, nth_error (s_b st) j with
+      | Some s, Some v => (RetInt (if set_find vlt v s then 1 else 0), st)
+      | _, _ => (Unmodelled, st)
+      end
+  | _ => (Unmodelled, st)
+  end.
+(* return (self->m.erase(basic_rcp(value))) ? 1 : 0; *)
+Definition h_set_erase (st : state) (actuals : list arg) : outcome * state :=
+  match actuals with
+  | [AS i; AB j] =>
+      match nth_error (s_s st) i, nth_error (s_b st) j with
+      | Some s, Some v => (RetInt (if fst (set_erase vlt v s) then 1 else 0), set_s st i (snd (set_erase vlt v s)))
+      | _, _ => (Unmodelled, st)
+      end
+  | _ => (Unmodelled, st)
+  end.
+Definition h_set_size (st : state) (actuals : list arg) : outcome * state :=
+  match actuals with
+  | [AS i] => match nth_error (s_s st) i with
+              | Some s => (RetInt (Z.of_nat (length s)), st)
+              | None => (Unmodelled, st)
+              end
+  | _ => (Unmodelled, st)
+  end.
+(* (self->m)[basic_rcp(key)] = basic_rcp(mapped); *)
+Definition h_map_insert (st : state) (actuals : list arg) : outcome * state :=
+  match actuals with
+  | [AM i; AB j; AB k] =>
+      match nth_error (s_m st) i, nth_error (s_b st) j, nth_error (s_b st) k with
+      | Some m, Some key, Some v => (RetVoid, set_m st i (map_set vlt key v m))
+      | _, _, _ => (Unmodelled, st)
+      end
+  | _ => (Unmodelled, st)
+  end.
+(* auto it = self->m.find(basic_rcp(key)); if (it != end) { basic_rcp(mapped) = it->second; return 1; } return 0; *)
+Definition h_map_get (st : state) (actuals : list arg) : outcome * state :=
+  match actuals with
+  | [AM i; AB j; AB k] =>
+      match nth_error (s_m st) i, nth_error (s_b st) j with
+      | Some m, Some key =>
+          if negb (k <? length (s_b st))%nat then (Unmodelled, st)
+          else match map_get vlt key m with
+               | Some x => (RetInt 1, set_b st k x)
+               | None => (RetInt 0, st)
+               end
+      | _, _ => (Unmodelled, st)
+      end
+  | _ => (Unmodelled, st)
+  end.
+Definition h_map_size (st : state) (actuals : list arg) : outcome * state :=
+  match actuals with
+  | [AM i] => match nth_error (s_m st) i with
+              | Some m => (RetInt (Z.of_nat (length m)), st)
+              | None => (Unmodelled, st)
+              end
+  | _ => (Unmodelled, st)
+  end.
+
+Definition hand_step (name : string) (st : state) (actuals : list arg) : outcome * state :=
+  if name =? "vecbasic_push_back" then h_vec_push_back st actuals
+  else if name =? "vecbasic_get" then h_vec_get st actuals
+  else if name =? "vecbasic_set" then h_vec_set st actuals
+  else if name =? "vecbasic_erase" then h_vec_erase st actuals
+  else if name =? "vecbasic_size" then h_vec_size st actuals
+  else if name =? "setbasic_insert" then h_set_insert st actuals
+  else if name =? "setbasic_get" then h_set_get st actuals
+  else if name =? "setbasic_find" then h_set_find st actuals
+  else if name =? "setbasic_erase" then h_set_erase st actuals
+  else if name =? "setbasic_size" then h_set_size st actuals
+  else if name =? "mapbasicbasic_insert" then h_map_insert st actuals
+  else if name =? "mapbasicbasic_get" then h_map_get st actuals
+  else if name =? "mapbasicbasic_size" then h_map_size st actuals
+  else (Unmodelled, st).
 
 (* ------------------------------------------------------------------ one call, a sequence of calls *)
 Record call := mkcall { c_fn : string; c_args : list arg }.
